@@ -75,7 +75,7 @@ def ulp_at(fr):
     return Fraction(2) ** max(e - 52, -1074)
 
 def spec_value(text, system):
-    """(exact Fraction, tolerance, exact_rule: bool, sign) of an admitted text, or None"""
+    """(exact Fraction, tolerance, exact_rule: bool, sign, largest intermediate magnitude) of an admitted text, or None"""
     p = spec_parse(text, system)
     if p is None: return None
     mag, sign, prefix, unit = p
@@ -89,14 +89,14 @@ def spec_value(text, system):
     d2 = ulp_at(mag / div) / 2 if div == 8 else 0
     df = 0 if representable(factor) else ulp_at(factor) / 2
     tol = ((d1 / div + d2) * factor + abs(mag / div) * df) * Fraction(101, 100) + 2 * ulp_at(exact)
-    return exact, tol, exact_rule, (sign < 0)
+    return exact, tol, exact_rule, (sign < 0), max(abs(mag), abs(exact))
 
 def in_overflow_zone(text, system):
-    """known finding K14: the admitted text's quantity does not fit binary64 (with the rounding slack)"""
+    """known finding K14: the magnitude or the quantity of the admitted text does not fit binary64 (with the rounding slack)"""
     v = spec_value(text, system)
     if v is None: return False
-    exact, tol, _, _ = v
-    return abs(exact) + tol >= MAXF
+    exact, tol, _, _, big = v
+    return big + tol >= MAXF
 
 # ------------------------------------------------------------------ generators
 SYSTEMS = ['IEC', 'SI', 'mixed']
@@ -302,8 +302,8 @@ def oracle(c, out):
         sv = spec_value(text, u)
         if sv is None:
             return None if out == 'EXN:ValueError' else '%s: not [sign]number[prefix]unit of a known unit system, yet gives %s' % (what, out)
-        exact, tol, exact_rule, neg = sv
-        if abs(exact) + tol >= MAXF and not exact_rule:
+        exact, tol, exact_rule, neg, big = sv
+        if big + tol >= MAXF and not exact_rule:
             # the quantity does not fit binary64: inf is the IEEE evaluation (no alarm); a finite answer must still be
             # within rounding; anything else (OverflowError under return_int) is known finding K14
             if out in ('f:inf', 'f:-inf') and not ri: return None
@@ -340,18 +340,26 @@ def oracle(c, out):
         sv = spec_value(mag + u2, 'IEC')
         if sv is None:
             return None if out == 'EXN:ValueError' else '%s: unit %r is not an IEC unit, yet gives %s' % (what, unit, out)
-        exact, tol, exact_rule, neg = sv
-        if abs(exact) + tol >= MAXF: return None
+        exact, tol, exact_rule, neg, big = sv
+        if big + tol >= MAXF: return None
         return _check_value(what, 'i:' + out if not out.startswith('EXN') else out, exact, tol, exact_rule, True)
     return None
 
 def zone(c):
     if c.get('op') == 's2b' and in_overflow_zone(c['text'], c['u']): return 'K14'
-    if c.get('op') == 'xb' and 'mag' in c:
-        unit = c['unit']
+    if c.get('op') == 'xb':
+        if 'mag' in c:
+            mag, unit = c['mag'], c['unit']
+        else:
+            m = re.match(r'\s*([0-9]+[eE][-+][0-9]+|[0-9]*\.?[0-9]+)\s*(\w+)?', c['d'])
+            if not m: return None
+            mag, unit = m.group(1), m.group(2) or ''
+        if re.fullmatch(r'[0-9]+[eE][-+][0-9]+', mag):      # the code rewrites e-notation with format(float(), '.0f')
+            f = float(mag)
+            if f == float('inf'): return None
+            mag = format(f, '.0f')
         u2 = unit + 'B' if len(unit) == 1 and unit != 'B' else unit
-        if re.fullmatch(r'[0-9.]+', c['mag']) and in_overflow_zone(c['mag'] + u2, 'IEC'): return 'K14'
-    if c.get('op') == 'xb' and 'mag' not in c and re.match(r'[0-9]{290,}', c['d']): return 'K14'
+        if re.fullmatch(r'[0-9]*\.?[0-9]+', mag) and in_overflow_zone(mag + u2, 'IEC'): return 'K14'
     return None
 
 def extra_checks(rng, tier):
